@@ -34,6 +34,7 @@ use mc::sx::{Sx, enc_i128, enc_u64, sha256};
 use rayon::prelude::*;
 use serde_json::{Value, json};
 use std::collections::BTreeMap;
+use std::sync::{Arc, OnceLock};
 
 const MAX_COST: u64 = 11_000_000_000;
 type Loc = BTreeMap<String, u64>;
@@ -214,8 +215,33 @@ fn decode_parts(puzzle: &Sx, solution: &Sx) -> Result<Parts, &'static str> {
     Ok(Parts { module: p.module, mh: p.mh, lid: p.lid, lph: p.lph, inner: p.inner, pp: s.pp, pinner: s.pinner, pamt: s.pamt, amount: s.amount, isol: s.isol })
 }
 
+/// the top layer module, parsed once and kept alive for the whole run, with its own tree hash
+static TOP: OnceLock<(Sx, [u8; 32])> = OnceLock::new();
+
 fn top_layer() -> Sx {
-    Sx::parse(&SINGLETON_TOP_LAYER_V1_1).expect("chia-puzzles singleton top layer parses")
+    TOP.get_or_init(|| {
+        let m = Sx::parse(&SINGLETON_TOP_LAYER_V1_1).expect("chia-puzzles singleton top layer parses");
+        let h = m.tree_hash();
+        (m, h)
+    })
+    .0
+    .clone()
+}
+
+/// `Sx::tree_hash` with one shortcut: a subtree that *is* (pointer-identical to) the module kept
+/// alive in `TOP` is not re-hashed — its hash was computed once by `Sx::tree_hash`
+fn fast_hash(s: &Sx) -> [u8; 32] {
+    match s {
+        Sx::Atom(a) => h_atom(a),
+        Sx::Pair(l, r) => {
+            if let Some((Sx::Pair(tl, tr), th)) = TOP.get() {
+                if Arc::ptr_eq(l, tl) && Arc::ptr_eq(r, tr) {
+                    return *th;
+                }
+            }
+            h_pair(&fast_hash(l), &fast_hash(r))
+        }
+    }
 }
 
 // ------------------------------------------------------------------------------------------
@@ -262,7 +288,7 @@ impl FfCase {
 fn genuine(c: &FfCase) -> Result<(), &'static str> {
     let top: [u8; 32] = SINGLETON_TOP_LAYER_V1_1_HASH;
     let p = decode_puzzle(&c.puzzle)?;
-    if p.module.tree_hash() != top {
+    if fast_hash(&p.module) != top {
         return Err("curried program is not the singleton top layer");
     }
     if p.mh.as_slice() != top {
@@ -277,7 +303,7 @@ fn genuine(c: &FfCase) -> Result<(), &'static str> {
     }
     let pamt = dec_u64(&s.pamt).ok_or("lineage parent amount is not a u64")?;
     let amount = dec_u64(&s.amount).ok_or("solution amount is not a u64")?;
-    if c.coin.ph != c.puzzle.tree_hash() {
+    if c.coin.ph != fast_hash(&c.puzzle) {
         return Err("coin puzzle hash is not the tree hash of the puzzle");
     }
     let strukt = Sx::cons(Sx::atom(&p.mh), Sx::cons(Sx::atom(&p.lid), Sx::atom(&p.lph)));
@@ -363,7 +389,7 @@ fn bases(t: Tier, env_pk: &[u8]) -> Vec<Base> {
                         ];
                         if kind == 0 {
                             let tmp = Parts { module: module.clone(), mh: strukt_parts.0.clone(), lid: strukt_parts.1.clone(), lph: strukt_parts.2.clone(), inner: ident.clone(), pp: vec![], pinner: vec![], pamt: vec![], amount: vec![], isol: Sx::nil() };
-                            let ph = tmp.puzzle().tree_hash();
+                            let ph = fast_hash(&tmp.puzzle());
                             let parent = RCoin { parent: *pp, ph, amount: pamt }.id();
                             let coin = RCoin { parent, ph, amount };
                             sets.push(("self+my-puzzle", vec![cc(Sx::int(amount), None), cond(72, &[Sx::atom(&ph)])]));
@@ -385,7 +411,7 @@ fn bases(t: Tier, env_pk: &[u8]) -> Vec<Base> {
                                 amount: enc_u64(amount),
                                 isol,
                             };
-                            let ph = parts.puzzle().tree_hash();
+                            let ph = fast_hash(&parts.puzzle());
                             // harness self-check: hash-level curry agrees with the tree hash of the built puzzle
                             assert_eq!(ph, curry_hash(&top, &[parts.strukt().tree_hash(), inner_hash]), "curry_hash self-check");
                             let coin = RCoin { parent: RCoin { parent: *pp, ph, amount: pamt }.id(), ph, amount };
@@ -407,7 +433,11 @@ fn seed_bases() -> Vec<Base> {
         let spend = CoinSpend::from_bytes(&bytes).expect("parse seed CoinSpend");
         let puzzle = Sx::parse(spend.puzzle_reveal.as_ref()).expect("seed puzzle is plainly serialized");
         let solution = Sx::parse(spend.solution.as_ref()).expect("seed solution is plainly serialized");
-        let parts = decode_parts(&puzzle, &solution).expect("seed decodes as a singleton spend");
+        let mut parts = decode_parts(&puzzle, &solution).expect("seed decodes as a singleton spend");
+        if parts.module == top_layer() {
+            // same tree: share the long-lived copy so that `fast_hash` can skip it
+            parts.module = top_layer();
+        }
         assert_eq!(parts.puzzle(), puzzle, "seed puzzle re-renders");
         assert_eq!(parts.solution(), solution, "seed solution re-renders");
         let coin = RCoin { parent: spend.coin.parent_coin_info.to_bytes(), ph: spend.coin.puzzle_hash.to_bytes(), amount: spend.coin.amount };
@@ -523,7 +553,7 @@ fn corruptions(g: &FfCase, p: &Parts) -> Vec<FfCase> {
             q.lph = SINGLETON_LAUNCHER_HASH.to_vec();
         });
         let pz2 = q.puzzle();
-        let ph = pz2.tree_hash();
+        let ph = fast_hash(&pz2);
         let (nc2, np2) = reseat(ph);
         add("solution/eve-proof-reseated", pz2, q.eve_solution(), RCoin { parent: launcher.id(), ph, amount: c.amount }, nc2, np2);
     }
@@ -534,7 +564,7 @@ fn corruptions(g: &FfCase, p: &Parts) -> Vec<FfCase> {
         // wrong mod hash in the struct, every hash re-derived the way the (corrupt) struct dictates
         let q = with(&|q| q.mh = flip(&q.mh));
         let pz2 = q.puzzle();
-        let ph = pz2.tree_hash();
+        let ph = fast_hash(&pz2);
         let fake_mod: [u8; 32] = q.mh.clone().try_into().unwrap();
         let parent_ph = curry_hash(&fake_mod, &[q.strukt().tree_hash(), q.pinner.clone().try_into().unwrap()]);
         let c2 = RCoin { parent: RCoin { parent: q.pp.clone().try_into().unwrap(), ph: parent_ph, amount: dec_u64(&q.pamt).unwrap() }.id(), ph, amount: c.amount };
@@ -547,7 +577,7 @@ fn corruptions(g: &FfCase, p: &Parts) -> Vec<FfCase> {
         // the struct still names the real module, so the lineage parent's hash is the genuine one;
         // the three coins carry the fake puzzle's own tree hash
         let pz2 = q.puzzle();
-        let ph = pz2.tree_hash();
+        let ph = fast_hash(&pz2);
         let (nc2, np2) = reseat(ph);
         add(&format!("{cls}-reseated"), pz2, sol.clone(), RCoin { ph, ..c }, nc2, np2);
     }
@@ -557,12 +587,12 @@ fn corruptions(g: &FfCase, p: &Parts) -> Vec<FfCase> {
     {
         // not curried at all: the bare inner puzzle, coins re-seated on its hash
         let pz2 = p.inner.clone();
-        let ph = pz2.tree_hash();
+        let ph = fast_hash(&pz2);
         let (nc2, np2) = reseat(ph);
         add("puzzle/bare-inner-reseated", pz2, sol.clone(), RCoin { ph, ..c }, nc2, np2);
         // the real module curried with a third argument, coins re-seated on its hash
         let pz3 = curry(&p.module, &[p.strukt(), p.inner.clone(), Sx::atom(b"x")]);
-        let ph = pz3.tree_hash();
+        let ph = fast_hash(&pz3);
         let (nc3, np3) = reseat(ph);
         add("puzzle/three-curried-args-reseated", pz3, sol.clone(), RCoin { ph, ..c }, nc3, np3);
     }
@@ -759,7 +789,7 @@ fn run_ff(rep: &Report) {
                         n_cor += 1;
                     }
                     match catch(|| ff_check(c, &mut loc)) {
-                        Ok(Ok(())) => d.push(fxhash(&(c.class.as_str(), c.puzzle.tree_hash(), c.solution.tree_hash(), c.coin.id(), c.new_coin.id(), c.new_parent.id()))),
+                        Ok(Ok(())) => d.push(fxhash(&(c.class.as_str(), fast_hash(&c.puzzle), c.solution.tree_hash(), c.coin.id(), c.new_coin.id(), c.new_parent.id()))),
                         Ok(Err((sig, det))) => rep.violation(&format!("C19/{sig}"), c.json(), format!("{} [{}]: {det}", c.class, c.name)),
                         Err(p) => rep.machinery_error(&format!("ff harness panic on {} [{}]: {p}", c.class, c.name)),
                     }
@@ -1124,7 +1154,7 @@ fn run(rep: &Report) {
     rep.assume("run_spendbundle acceptance of the rewritten spend is demanded only when the original is accepted on the old coin and every ASSERT_MY_* of the rewritten output holds for the new coin (inner conditions bound to the old coin are the business of ELIGIBLE_FOR_FF, not of the rewrite); a funding spend of 2^64-1 mojos is added so that value conservation cannot reject");
     rep.assume("the singleton top layer module bytes and hash come from the external crate chia-puzzles 0.20.1 (own tree hash of the bytes is checked against the published hash)");
     rep.assume("'identical parsed conditions' = the canonical summary of run_spendbundle (created coins with hints, fees, time locks, birth assertions, signatures, eligibility flags) without cost fields");
-    let t0 = std::time::Instant::now(); run_ff(rep); eprintln!("ff {:?}", t0.elapsed());
+    run_ff(rep);
     run_dedup(rep);
 }
 
